@@ -8,7 +8,10 @@ FAMILIES = {
 PROPS = {
     "C08": dict(
         family="slice",
-        theorems=[],
+        theorems=T("C08", "substr_eq_spec", "left_eq", "right_eq", "trimLeft_eq", "trimRight_eq", "trim_eq", "whitespace_set",
+                   "beforeFirst_eq", "afterFirst_eq", "beforeLast_eq", "afterLast_eq", "reassemble_first", "reassemble_last",
+                   "absent_sep", "empty_sep_absent", "sep_forms_agree", "forms_bytes", "alloc_le_size",
+                   "pinned_right_witness", "pinned_substr_witness", "pinned_after_first_witness"),
         rule="substr over lengths {0,1,2,5,15,16,17,40} x every start in -|s|-2..|s|+2 and at both ends of the signed range x every count in 0..|s|+2 and "
              "SIZE_MAX-|s|-2..SIZE_MAX (all combinations); left/right for every n <= 2|s|+3 and n near 2^63 / SIZE_MAX; trims of every string over a 6-symbol "
              "alphabet (incl. NUL, 0xE9) up to length 4 (quick) / 6 (thorough) x 8 character sets; before/after of every subject over {a,A,-,NUL,E9} up to length "
